@@ -47,7 +47,7 @@ class _Budget:
 
 def _gen_q(rng, field, opts, counter):
     kind = rng.wpick(opts["qkinds"])
-    if field == "xy" and kind in ("str", "selfc"):
+    if field == "xy" and kind in ("str", "selfc", "selfg"):
         kind = "lambda"
     q = {"f": field, "kind": kind}
     if kind == "str":
@@ -220,6 +220,9 @@ def child_slots(s):
     """[(slotname, childspec)] in a fixed order (None children skipped)."""
     p = s["p"]
     out = []
+    if "explicit" in s:
+        # IrregularlyBin / Stack given explicit (edge, aggregator) pairs and value=None
+        return [("explicit:%d" % i, c) for i, (_, c) in enumerate(s["explicit"])]
     if p == "Bin":
         names = ["value", "underflow", "overflow", "nanflow"]
     elif p in ("SparselyBin", "CentrallyBin", "IrregularlyBin", "Stack"):
@@ -305,8 +308,12 @@ def _mk_q(q, node, qreg=None):
     if kind == "str":
         return q.get("expr", f)
     if kind == "selfc":
-        # self-contained lambda with a default argument and no globals at all
-        return eval('lambda d, k=1: getattr(d["%s"], "values", d["%s"])' % (f, f), {})
+        # self-contained lambda: the field it reads is a default argument, so every such quantity shares one code
+        # object (the loop idiom `[Sum(lambda d, f=f: d[f]) for f in fields]`)
+        return eval('lambda d, f=%r: getattr(d[f], "values", d[f])' % f, {})
+    if kind == "selfg":
+        # the field it reads is a global of the function: same code object, different referenced globals
+        return eval('lambda d: getattr(d[FIELD], "values", d[FIELD])', {"FIELD": f, "getattr": getattr})
     if kind == "column":
         from .scenarios.sparkfake import Column
 
@@ -351,6 +358,9 @@ def build(s, _ctr=None, refs=None, qreg=None):
     for name, c in child_slots(s):
         if ":" not in name:
             kw[name] = build(c, _ctr, refs, qreg)
+    if "explicit" in s:
+        pairs = [(dec_float(e), build(c, _ctr, refs, qreg)) for e, c in s["explicit"]]
+        return getattr(hg, p)(pairs, q, None)
     if p in ("Sum", "Average", "Deviate", "Minimize", "Maximize"):
         return getattr(hg, p)(q)
     if p == "Bag":
